@@ -4,6 +4,7 @@ from __future__ import annotations
 import copy
 import itertools
 import json
+import re
 import os
 import shutil
 from pathlib import Path
@@ -18,7 +19,7 @@ RULE = ("(i) every byte string of length <=3 (thorough <=4) over a 12-symbol JSO
         "file, offered as .json and as .yaml, and a list of YAML specials; (ii) every JSON value of depth <=2 over a small atom and key "
         "alphabet offered as the document; (iii) every single node fault (17 junk values, deletion, duplication under a sibling key) of 3 "
         "valid base documents (thorough: pairs on one base) (30 junk values incl. enums of floats/booleans/lists, inf/nan defaults, references urlparse refuses; 4 bases) and cyclic $ref shapes; (iv) every document of the other checks' spaces "
-        "(generate only), post hooks (single hooks and ordered pairs of succeeds / fails / missing tool x silent / UTF-8 / non-UTF-8 output); seam: the real typer CLI via CliRunner for (i)-(iii); oracle: no escaping exception, termination, exit "
+        "(generate only), configuration files (empty / wrong shape / every option x 19 junk values / YAML-only constructs / not UTF-8 / deep), post hooks (single hooks and ordered pairs of succeeds / fails / missing tool x silent / UTF-8 / non-UTF-8 output); seam: the real typer CLI via CliRunner for (i)-(iii); oracle: no escaping exception, termination, exit "
         "status <=> error-level diagnostics (and --fail-on-warning), no output when the document is rejected; (v) YAML-native scalars (dates, timestamps, binary, sets, inf/nan) at 12 value slots, version strings of every JSON shape, YAML alias graphs (cyclic / re-used / deep), every reference graph over 3 (thorough 4) reusable request bodies / responses / parameters (each refers to any of them, is real, or dangles), scalar tags whose constructor fails (!!int / !!float / !!bool / bad timestamps), schemas nested 10..600 levels deep through items / properties / allOf / oneOf / additionalProperties, date and number defaults no Python value can hold, the same YAML-native values (plus a self-containing node and non-UTF-8 bytes) inside schemas / parameters / bodies / responses that are refused and printed back in the diagnostic")
 FLOOR = 0.3
 ASSUMPTIONS = ["typer's CliRunner reproduces the command's behaviour", "a per-case watchdog (30 s vs ~15 ms typical) detects hangs; a timeout is re-run alone with a tenfold limit by the confirmation step"]
@@ -325,6 +326,25 @@ def _nested(kind, n):
     return {"openapi": "3.1.0", "info": {"title": "t", "version": "1"}, "paths": {}, "components": {"schemas": {"D": {"type": "object", "properties": {"q": s}}}}}
 
 
+def _config_faults():
+    """(file name, bytes): configuration files that are empty, of the wrong shape, with keys / values of the wrong type for every
+    documented option, with YAML-only constructs (non-string keys, failing scalar tags, aliases), not UTF-8, deeply nested."""
+    opts = ["class_overrides", "content_type_overrides", "project_name_override", "package_name_override", "package_version_override", "post_hooks", "field_prefix",
+            "http_timeout", "literal_enums", "docstrings_on_attributes", "generate_all_tags", "use_path_prefixes_for_title_model_names"]
+    junk = ["5", "-1", "1.5", "true", "null", "'x'", "''", "[]", "[1]", "{}", "{a: 1}", "[[x]]", "{a: {b: [c]}}", "2020-01-02", '!!bool "maybe"', '!!int "zz"', "2001-13-01", "&a [*a]", "!!binary /w=="]
+    out = [("empty.yml", b""), ("spaces.yml", b"  \n"), ("list.yml", b"- a\n- b\n"), ("scalar.yml", b"5\n"), ("string.yml", b"just text\n"), ("null.yml", b"~\n"),
+           ("intkey.yml", b"2024: notes\n"), ("nullkey.yml", b"~: x\n"), ("boolkey.yml", b"true: x\n"), ("listkey.yml", b"? [a, b]\n: x\n"), ("unknown.yml", b"no_such_option: 1\n"),
+           ("dupkey.yml", b"literal_enums: true\nliteral_enums: false\n"), ("notutf8.yml", b"field_prefix: caf\xe9\n"), ("nul.yml", b"field_prefix: a\x00b\n"),
+           ("deep.yml", b"post_hooks: " + b"[" * 3000 + b"\n"), ("alias-cycle.yml", b"class_overrides: &a\n  X: *a\n"), ("tab.yml", b"\tfield_prefix: x\n"),
+           ("empty.json", b""), ("list.json", b"[1, 2]"), ("scalar.json", b"5"), ("null.json", b"null"), ("broken.json", b'{"literal_enums": tru'), ("notutf8.json", b'{"field_prefix": "caf\xe9"}'),
+           ("deep.json", b'{"post_hooks": ' + b"[" * 3000 + b"}"), ("nokey.json", b'{"": 1}')]
+    for o in opts:
+        for i, j in enumerate(junk):
+            out.append((f"{o}-{i}.yml", f"{o}: {j}\n".encode()))
+    out.append(("overrides-shape.yml", b"class_overrides:\n  A: x\n  B: [1]\n  C: {class_name: 5, module_name: [x]}\n  D: {unknown: 1}\ncontent_type_overrides:\n  application/x: 5\n  5: application/json\n"))
+    return out
+
+
 HOOKS = {   # name: (shell command, outcome class)
     "ok-silent": ("true", "ok"), "ok-utf8": ("printf 'h\\303\\251llo'", "ok"), "ok-nonutf8-stdout": ("printf '\\377\\376raw'", "ok"),
     "ok-nonutf8-stderr": ("printf '\\377\\376raw' >&2", "ok"), "fail-silent": ("false", "fail"), "fail-utf8": ("ls /nonexistent-c06-dir", "fail"),
@@ -410,6 +430,7 @@ def cases(tier):
     yield {"labels": ["yaml-native-values", "fail-on-warning"], "payload": {"mode": "yamlnative", "fail_on_warning": True}}
     # CLI option faults; post hooks: every single hook and ordered pair of {succeeds, fails, missing tool} x {silent, UTF-8, non-UTF-8 output}
     yield {"labels": ["cli-options"], "payload": {"mode": "cli-options"}}
+    yield {"labels": ["config-files"], "payload": {"mode": "config-files"}}
     # post hooks: every single hook and every ordered pair of {succeeds, fails, missing tool} x {silent, UTF-8 output, output that is not UTF-8}
     names = list(HOOKS)
     combos = [[h] for h in names] + [[a, b] for a in names for b in names]
@@ -593,6 +614,31 @@ def run_case(p):
                     if c == "missing" and "is not in PATH" not in (r.output or ""):
                         viol.append({"oracle": "diagnostic-not-printed", "site": "cli", "key": f"post-hooks/{c}", "detail": f"post hooks {combo}: missing tool of {h} is not reported"})
                 outcomes[f"hooks:exit{r.exit_code}"] += 1
+            finally:
+                shutil.rmtree(out, ignore_errors=True)
+    elif mode == "config-files":
+        from checks import c05
+        src = _write("c06in.json", json.dumps(c05.base1()).encode())
+        runner, app, _cfg = _cli()
+        for fname, data in _config_faults():
+            cfgp = gen.scratch_root() / ("c06cfg-" + fname.split(".")[-1] + "." + fname.split(".")[-1])
+            cfgp.write_bytes(data)
+            out = gen.fresh_dir("cli")
+            _CURRENT[0] = f"config {fname}"
+            try:
+                r = runner.invoke(app, ["generate", "--path", str(src), "--meta", "none", "--config", str(cfgp), "--output-path", str(out)])
+                steps += 1
+                if r.exception is not None and not isinstance(r.exception, SystemExit):
+                    info = gen.crash_info(r.exception)
+                    cls = re.sub(r"-\d+\.", ".", fname)
+                    viol.append({"oracle": "crash", "site": info["where"], "key": f"{info['type']}/config:{cls}", "detail": f"--config {fname} ({data[:60]!r}): {info['type']}: {info['msg']}"})
+                    outcomes["config:crash"] += 1
+                    continue
+                if r.exit_code != 0 and out.exists():
+                    viol.append({"oracle": "output-on-rejection", "site": "cli", "key": "config/written", "detail": f"--config {fname}: exit {r.exit_code} but {sorted(os.listdir(out))[:4]} was written"})
+                if r.exit_code == 0 and not out.exists():
+                    viol.append({"oracle": "no-output", "site": "cli", "key": "config/missing", "detail": f"--config {fname}: exit 0 but nothing was written"})
+                outcomes[f"config:exit{r.exit_code}"] += 1
             finally:
                 shutil.rmtree(out, ignore_errors=True)
     elif mode == "cli-options":
